@@ -299,6 +299,10 @@ fn gen_ipv4() -> Ipv4Addr {
     Ipv4Addr::new(lattice_octet(), lattice_octet(), lattice_octet(), lattice_octet())
 }
 
+pub fn gen_peer_ip_pub(base: Option<Ipv4Addr>) -> IpAddr {
+    gen_peer_ip(base)
+}
+
 fn gen_peer_ip(base: Option<Ipv4Addr>) -> IpAddr {
     match weighted(&[4, 4, 1, 1, 1]) {
         0 => IpAddr::V4(gen_ipv4()),
